@@ -15,10 +15,20 @@ Two levels:
   There the closed form holds (`Timers.okPrompt`).
 `Timers.ok` and `Timers.okPrompt` are the predicates the driver evaluates on the histories observed
 from the real implementation.
+
+Time is in **microseconds**: periods and clock advances are arbitrary; tokio's timer wheel (1 ms
+granularity, deadlines rounded UP) is the stated runtime axiom `Timers.wheelDeadline`. All
+"never early" statements are in µs against the exact instant `created + k·period`.
 -/
 
 namespace C12
 open Timers
+
+/-- (the wheel axiom is sound for "never early" and costs less than a millisecond) -/
+theorem wheel_rounds_up (armed p : Nat) :
+    armed + p ≤ wheelDeadline armed p ∧ wheelDeadline armed p < armed + p + 1000 ∧
+      wheelDeadline armed p % 1000 = 0 := by
+  simp only [wheelDeadline, ceilMs]; omega
 
 /-- For every schedule of the small steps the history satisfies `Timers.ok`: never early,
 nothing in the future, one-shot timers act at most once and their handle tells what happened
@@ -44,12 +54,12 @@ theorem never_early (ops : List Op) (τ : Timer) (hτ : τ ∈ (steps init ops).
     (k : Nat) (hk : k < τ.sentAt.length) : τ.created + (k + 1) * τ.period ≤ τ.sentAt[k] :=
   never_early' (Inv.init.steps ops) τ hτ k hk
 
-/-- `send_after`, the fire step: when the sleeping task is polled at or after its deadline it
+/-- `send_after`, the fire step: when the sleeping task is polled at or after its wheel deadline it
 sends exactly one message if the target still accepts (handle: `Ok`), and otherwise sends nothing
 and reports the error through its handle. -/
 theorem sendAfter_fires (ops : List Op) (i : Nat) (τ : Timer) (a : Nat)
     (hi : (steps init ops).timers[i]? = some τ) (hk : τ.kind = .sendAfter) (hp : τ.res = .pending)
-    (ha : τ.armed = some a) (hd : a + τ.period ≤ (steps init ops).now) :
+    (ha : τ.armed = some a) (hd : wheelDeadline a τ.period ≤ (steps init ops).now) :
     let s := steps init ops
     let s' := step s (.fire i)
     ∃ τ', s'.timers[i]? = some τ' ∧ τ'.sentAt = [s.now] ∧
@@ -69,33 +79,39 @@ theorem abort_prevents (s : State) (i : Nat) (τ : Timer) (hi : s.timers[i]? = s
     ∃ τ', (steps (step s (.abort i)) ops).timers[i]? = some τ' ∧ τ'.sentAt = τ.sentAt ∧ τ'.res = .cancelled :=
   abort_prevents' s i τ hi hp ops
 
-/-- Closed form, no drift (quiescent runs): the k-th action of a timer happens no earlier than
-`created + k·period` and no later than the first quiescent point `c` at or after that deadline;
-in particular if the clock visits the deadline itself the action happens exactly then. -/
+/-- Closed form, no drift (quiescent runs): the k-th action of a timer happens no earlier than the
+exact instant `created + k·period` and no later than the first quiescent point `c` at or after the
+wheel deadline of that instant (less than a millisecond later); if the instant is a whole
+millisecond and the clock visits it, the action happens exactly then. Deadlines never accumulate
+rounding: the k-th is computed from `created`, not from the previous action. -/
 theorem closed_form (ms : List MOp) (τ : Timer) (hτ : τ ∈ (mrun init ms).timers)
     (k : Nat) (hk : k < τ.sentAt.length) :
     τ.created + (k + 1) * τ.period ≤ τ.sentAt[k] ∧
-    (∀ c ∈ (mrun init ms).visits, τ.created + (k + 1) * τ.period ≤ c → τ.sentAt[k] ≤ c) ∧
-    (τ.created + (k + 1) * τ.period ∈ (mrun init ms).visits → τ.sentAt[k] = τ.created + (k + 1) * τ.period) :=
+    (∀ c ∈ (mrun init ms).visits, wheelDeadline τ.created ((k + 1) * τ.period) ≤ c → τ.sentAt[k] ≤ c) ∧
+    (τ.created + (k + 1) * τ.period ∈ (mrun init ms).visits → (τ.created + (k + 1) * τ.period) % 1000 = 0 →
+      τ.sentAt[k] = τ.created + (k + 1) * τ.period) :=
   closed_form' (BInv.init.mrun ms) τ hτ k hk
 
 /-- An interval task whose target left the active states ends within one period (quiescent
-runs): once the clock is a full period past the instant the target stopped accepting, the task
-is gone; and in any schedule it makes at most one (failing) attempt after that instant. -/
+runs): once the clock has reached the wheel deadline of a full period past the instant the target
+stopped accepting — and, for an interval created after that off the millisecond grid, the next
+millisecond boundary after its creation (its "immediate" first tick is rounded up too) —, the task is gone; and in any schedule it makes at most one (failing) attempt after that instant. -/
 theorem interval_dies_with_target (ms : List MOp) (τ : Timer) (hτ : τ ∈ (mrun init ms).timers)
     (hk : τ.kind = .interval) (tc : Nat) (hc : (mrun init ms).target.closedAt = some tc) :
-    (tc + τ.period ≤ (mrun init ms).now → τ.res ≠ .pending) ∧
+    (wheelDeadline tc τ.period ≤ (mrun init ms).now → wheelDeadline τ.created 0 ≤ (mrun init ms).now →
+      τ.res ≠ .pending) ∧
     (τ.sentAt.filter (fun t => decide (tc < t))).length ≤ 1 :=
   interval_dies' (BInv.init.mrun ms) τ hτ hk tc hc
 
-/-- `exit_after` / `kill_after`: if the target exited with reason `"Exit after {p}ms"` then an
-`exit_after(p)` timer acted, no earlier than `p` after it was created and no later than the exit;
+/-- `exit_after` / `kill_after`: if the target exited with reason `"Exit after {m}ms"` then an
+`exit_after(period)` timer with `period.as_millis() = m` acted, no earlier than its FULL period (in
+µs, not the truncated millisecond count) after it was created and no later than the exit;
 if it exited `"killed"`, somebody called `kill` or a `kill_after` timer acted no earlier than its
 period. For every schedule. -/
 theorem exit_reason (ops : List Op) (r : Reason) (te : Nat)
     (he : (steps init ops).target.exit = some (r, te)) :
-    (∀ p, r = .exitAfter p → ∃ τ ∈ (steps init ops).timers, τ.kind = .exitAfter ∧ τ.period = p ∧
-        ∃ t ∈ τ.sentAt, τ.created + p ≤ t ∧ t ≤ te) ∧
+    (∀ p, r = .exitAfter p → ∃ τ ∈ (steps init ops).timers, τ.kind = .exitAfter ∧ asMillis τ.period = p ∧
+        ∃ t ∈ τ.sentAt, τ.created + τ.period ≤ t ∧ t ≤ te) ∧
     (r = .killed → (steps init ops).target.manualKill = true ∨
         ∃ τ ∈ (steps init ops).timers, τ.kind = .killAfter ∧
           ∃ t ∈ τ.sentAt, τ.created + τ.period ≤ t ∧ t ≤ te) ∧
@@ -107,29 +123,53 @@ theorem reason_string (p : Nat) : (Reason.exitAfter p).render = "Exit after " ++
 
 /-! ### Non-vacuity -/
 
-/-- an interval of 3 ms over quiescent points 0,3,6,8,9,19: messages at 3, 6, 9, then a burst of three at 19 -/
-example : ((mrun init [.create .interval 3, .adv 3, .adv 3, .adv 2, .adv 1, .adv 10]).timers.map (·.sentAt))
-    = [[3, 6, 9, 19, 19, 19]] := by decide
+/-- an interval of 3 ms over quiescent points 0,3,6,8,9,19 ms: messages at 3, 6, 9, then a burst of three at 19 -/
+example : ((mrun init [.create .interval 3000, .adv 3000, .adv 3000, .adv 2000, .adv 1000, .adv 10000]).timers.map (·.sentAt))
+    = [[3000, 6000, 9000, 19000, 19000, 19000]] := by decide
+
+/-- sub-millisecond periods: exit_after(2500 µs) is still pending at 2 ms and stops the actor at 3 ms
+with the (truncated) reason "Exit after 2ms"; exit_after(900 µs) does not fire at 0 -/
+example : let s := mrun init [.create .exitAfter 2500, .adv 2000]
+    s.timers.map (·.res) = [.pending] ∧ s.target.exit = none := by decide
+example : (mrun init [.create .exitAfter 2500, .adv 2000, .adv 1000]).target.exit = some (.exitAfter 2, 3000) := by decide
+example : (Reason.exitAfter 2).render = "Exit after 2ms" := by decide
+example : let s := mrun init [.create .exitAfter 900, .adv 500, .adv 500]
+    s.timers.map (·.sentAt) = [[1000]] ∧ s.target.exit = some (.exitAfter 0, 1000) := by decide
+
+/-- an interval of 300 µs: its ticks at 300, 600, 900 µs all complete at the 1 ms boundary, the 4th
+(1200 µs) at 2 ms; a timer created at 1.5 ms for 700 µs (exact 2.2 ms) fires at 3 ms -/
+example : ((mrun init [.create .interval 300, .adv 500, .adv 500, .adv 1000]).timers.map (·.sentAt))
+    = [[1000, 1000, 1000, 2000, 2000, 2000]] := by decide
+example : ((mrun init [.adv 1500, .create .sendAfter 700, .adv 500, .adv 500, .adv 500]).timers.map (·.sentAt))
+    = [[3000]] := by decide
+
+/-- the "immediate" first tick of `interval()` is rounded up too: created at 5.001 ms for a dead
+target, the task passes its loop head (and ends) only at 6 ms -/
+example : let s := mrun init [.kill, .adv 5001, .create .interval 700]
+    s.timers.map (·.res) = [.pending] := by decide
+example : let s := mrun init [.kill, .adv 5001, .create .interval 700, .adv 999]
+    s.timers.map (fun τ => (τ.res, τ.sentAt)) = [(.ok, [])] := by decide
 
 /-- send_after racing kill_after at the same instant: the send is accepted (handle `ok`), the
 target dies "killed" without handling it -/
-example : let s := mrun init [.create .sendAfter 5, .create .killAfter 5, .adv 5]
-    s.timers.map (·.res) = [.ok, .ok] ∧ s.target.exit = some (.killed, 5) ∧ s.target.handled = [] := by decide
+example : let s := mrun init [.create .sendAfter 5000, .create .killAfter 5000, .adv 5000]
+    s.timers.map (·.res) = [.ok, .ok] ∧ s.target.exit = some (.killed, 5000) ∧ s.target.handled = [] := by decide
 
 /-- abort at the boundary (clock already at the deadline, task not yet polled): nothing is sent -/
-example : let s := mrun init [.create .sendAfter 5, .advAbort 5 0, .adv 1]
+example : let s := mrun init [.create .sendAfter 5000, .advAbort 5000 0, .adv 1000]
     s.timers.map (·.res) = [.cancelled] ∧ s.timers.map (·.sentAt) = [[]] := by decide
 
 /-- a dead target: send_after reports the error, the interval makes one failing attempt and ends -/
-example : let s := mrun init [.create .interval 3, .create .sendAfter 4, .adv 3, .kill, .adv 3]
-    s.timers.map (·.res) = [.ok, .err] ∧ s.timers.map (·.sentAt) = [[3, 6], [6]]
-      ∧ s.target.handled = [(0, 1, 3)] := by decide
+example : let s := mrun init [.create .interval 3000, .create .sendAfter 4000, .adv 3000, .kill, .adv 3000]
+    s.timers.map (·.res) = [.ok, .err] ∧ s.timers.map (·.sentAt) = [[3000, 6000], [6000]]
+      ∧ s.target.handled = [(0, 1, 3000)] := by decide
 
 /-- exit_after with the documented reason -/
-example : (mrun init [.create .exitAfter 7, .adv 7]).target.exit = some (.exitAfter 7, 7) := by decide
+example : (mrun init [.create .exitAfter 7000, .adv 7000]).target.exit = some (.exitAfter 7, 7000) := by decide
 
 end C12
 
+#print axioms C12.wheel_rounds_up
 #print axioms C12.ok_all
 #print axioms C12.ok_quiescent
 #print axioms C12.oneShot_once_never_early
